@@ -69,8 +69,36 @@ def _pred_core(lam):
     return _norm_name_expr(b, pname=lam.args.args[0].arg), neg
 
 
-def _comp_pred_core(target, cond, keys=False):
+def _as_lambda(prog, fe, at):
+    """The predicate `fe` as a lambda whose body has the single-return helpers it calls written out: a lambda stays one, a
+    name bound to a one-parameter single-return function of the package becomes `lambda <param>: <its expression>`."""
+    if isinstance(fe, ast.Lambda):
+        lam = ast.Lambda(args=fe.args, body=prog.see_through(fe.body))
+    else:
+        tg = [t for t in prog.resolve_expr_fn(fe, at) if isinstance(t, FunctionInfo)] if isinstance(fe, (ast.Name, ast.Attribute)) else []
+        if len(tg) != 1 or not isinstance(tg[0].node, ast.FunctionDef):
+            return fe
+        fd = tg[0].node
+        body = [st for st in fd.body if not (isinstance(st, ast.Expr) and isinstance(st.value, ast.Constant))]
+        if len(fd.args.args) != 1 or fd.args.vararg or fd.args.kwarg or fd.args.kwonlyargs or len(body) != 1 or not isinstance(body[0], ast.Return) or body[0].value is None:
+            return fe
+        lam = ast.Lambda(args=fd.args, body=prog.see_through(body[0].value))
+    ast.copy_location(lam, fe)
+
+    def link(n, parent):
+        n._parent = parent
+        for ch in ast.iter_child_nodes(n):
+            if ch is not lam.args:
+                link(ch, n)
+    lam._parent = getattr(fe, "_parent", None)
+    link(lam.body, lam)
+    return lam
+
+
+def _comp_pred_core(target, cond, keys=False, prog=None):
     """(core, negated) of a comprehension condition that depends on the item's name only, else None"""
+    if prog is not None:
+        cond = prog.see_through(cond)
     b, neg = cond, False
     while isinstance(b, ast.UnaryOp) and isinstance(b.op, ast.Not):
         b, neg = b.operand, not neg
@@ -227,8 +255,9 @@ def rule_order(prog, rep, tier, only=None):
                         if p.args[0] is None or (isinstance(p.args[0], ast.Constant) and p.args[0].value is None):
                             verdict = "filter(None, ...) over the parameter items"
                             break
-                        if _name_only_pred(p.args[0]):
-                            filters.append((p.args[0], p))
+                        pred = _as_lambda(prog, p.args[0], p)
+                        if _name_only_pred(pred):
+                            filters.append((pred, p))
                             chain.append("filter[name]")
                         else:
                             verdict = "filtered by a predicate that looks beyond the parameter name: %s" % src(p.args[0], 60)
@@ -247,7 +276,7 @@ def rule_order(prog, rep, tier, only=None):
                 elif isinstance(p, ast.comprehension):
                     comp = p._parent
                     for cond in p.ifs:
-                        core = _comp_pred_core(p.target, cond, keys=_is_params_items(s, irp) == "keys")
+                        core = _comp_pred_core(p.target, cond, keys=_is_params_items(s, irp) == "keys", prog=prog)
                         if core is None:
                             verdict = "comprehension condition that looks beyond the parameter name: %s" % src(cond, 60)
                         else:
@@ -339,7 +368,7 @@ def _loop_form(prog, rep, fi, q, s, loop, ctor, slot_of, comp_filters, irp):
         picked = 0
         for st in ast.walk(loop):
             if isinstance(st, ast.If) and any(isinstance(x, ast.Name) and x.id in names_in(tgt) for b_ in st.body for x in ast.walk(b_)):
-                core = _comp_pred_core(tgt, st.test, keys=keys)
+                core = _comp_pred_core(tgt, st.test, keys=keys, prog=prog)
                 if core is not None:
                     comp_filters.append((core, st))
                     picked += 1
@@ -352,7 +381,7 @@ def _loop_form(prog, rep, fi, q, s, loop, ctor, slot_of, comp_filters, irp):
     for var, elt, call in appends:
         bad = None
         for t, pol in expr_guards(call, stop=loop):
-            core = _comp_pred_core(tgt, t, keys=keys)
+            core = _comp_pred_core(tgt, t, keys=keys, prog=prog)
             if core is None:
                 bad = "an append guarded by a condition that looks beyond the parameter name: %s" % src(t, 60)
                 break
@@ -484,7 +513,7 @@ def _pos_domain(target, it, var, folder=None):
 def rule_sigcover(prog, rep, tier, anchor="parse.function", components=("args", "kwonlyargs", "kwarg")):
     from sa.consteval import Folder
     folder = Folder(prog)
-    fi = prog.fn(anchor)
+    fi = prog.inl(prog.fn(anchor))  # aliases of the signature object / accessor partials written out
     fd = fi.params()[0]
     doc_names = {"doc_str", "intermediate_repr"}
     # names that hold the signature object: <fd>.args itself or a local bound once to it
@@ -605,7 +634,7 @@ def rule_allpair(prog, rep, tier, anchor="gen.gen"):
     fi = prog.fn(anchor)
     region = prog.region(fi)
     nodes = [f.node for f in region]
-    helpers = [f for f in region if f is not fi and f.parent_fn is None]
+    helpers = [f for f in region if f is not fi]  # module-level helpers and closures of gen alike
     appends = [c for c in ast.walk(fi.node) if isinstance(c, ast.Call) and isinstance(c.func, ast.Attribute) and c.func.attr == "append" and isinstance(c.func.value, ast.Name)]
     ctors = _has_all_ctor(nodes)
     if not ctors:
